@@ -73,6 +73,7 @@ def run_job(job):
                 vals["tag%d_%d" % (i, t)] = sym.sym_bytes("tag%d_%d_" % (i, t), tl)
         key = sym.sym_bytes("key", 16) if keymode == "sym" else bf.DEFAULT_SESSION_KEY
         vals["key"] = key
+        runner.track(vals)
         f = build_file(bf, shape, vals)
         carrier = stubs.Carrier()
         if keymode == "sym":
